@@ -633,6 +633,9 @@ class SAMIWriter(BaseWriter):
                 sami_style['font-weight'] = 'bold'
             elif key == 'underline' and value is True:
                 sami_style['text-decoration'] = 'underline'
+            elif key in ('italics', 'bold', 'underline'):
+                # a flag that is not set is no CSS declaration
+                continue
             else:
                 sami_style[key] = value
 
